@@ -30,8 +30,14 @@ LINE_SEPS = ["\x0b", "\x0c", "\x1c", "\x1d", "\x1e", "\x85", "\u2028", "\u2029",
 
 def corrupt(rng, text):
     k = rng.randrange(len(text) + 1)
-    op = rng.randrange(6)
+    op = rng.randrange(7)
     c = rng.choice(BREAKERS)
+    if op == 6:
+        # a margin: the same blank(s) in front of every line, or in front of the first only (a rule must start in column 0)
+        m = rng.choice([" ", "\t", "  ", "    ", " \t"])
+        if rng.random() < 0.5:
+            return m + text
+        return "".join(m + ln for ln in text.splitlines(True))
     if op >= 4:
         # around a line end (where a too generous line splitter would hide the damage), or a bare CR / LF inside a token
         ends = [i for i, ch in enumerate(text) if ch in "\r\n"]
